@@ -238,6 +238,16 @@ def check_half_weight_symmetry(ctx, ck, rule='R-SYM.half-weights', entry='minine
                     continue
                 h = sl.elts[1]
                 if isinstance(h, ast.Constant) and h.value in (0, 1) and not isinstance(h.value, bool):
+                    # a mask that itself picks one half of the ground flags (`ground[:, 0]`) knows which end is
+                    # grounded: such a store is made per half on purpose and is not judged here
+                    mexpr = sl.elts[0]
+                    if isinstance(mexpr, ast.Name):
+                        ds_ = [x.value for x in walk_no_nested(g.node) if isinstance(x, ast.Assign) and len(x.targets) == 1
+                               and isinstance(x.targets[0], ast.Name) and x.targets[0].id == mexpr.id]
+                        mexpr = ds_[0] if len(ds_) == 1 else mexpr
+                    if any(isinstance(y, ast.Subscript) and _ground_base(y.value, set()) and _half_literal(y) is not None
+                           for y in ast.walk(mexpr)):
+                        continue
                     rest = (norm(sl.elts[0]),) + tuple(norm(e) for e in sl.elts[2:])
                     groups.setdefault((rest, op, norm(v)), {})[h.value] = s
             bad = [(k, hs) for k, hs in groups.items() if set(hs) != {0, 1}]
